@@ -68,7 +68,7 @@ func ecmaGoroutines() (int, string) {
 
 func Run(cfg fw.Config, rec *fw.Rec) {
 	rec.Rule = "14 non-terminating interpreted scripts (while/for with property, array and string operations, unbounded and mutual recursion, loops inside try/catch and try/finally, closures, binding mutation, emitting, looping getters of the returned object) x deadlines {already expired, 0, 1, 5, 20, 100, 300 ms} x {deadline, asynchronous cancel at a pseudo-random instant, cancel of a context that also has a far deadline, cancel of an ancestor context} x concurrency {1, 4, 16, 64} x {Interpreter.Exec, Spec.Walk with 3 error settings}; each call must return the timeout error no later than deadline + 10 s (hard bound; observed latencies reported), the walk must route it like any action error, and after each combination no goroutine with an interpreter frame may remain (polled up to 5 s); non-trivial = execution that was interrupted; distinct by (script, deadline, cancel mode, concurrency, via)"
-	rec.Required = []string{"interrupted", "interrupted_async_cancel", "interrupted_by_cancel_before_a_far_deadline", "routed_as_action_error", "no_goroutine_left", "concurrency_64", "already_expired"}
+	rec.Required = []string{"interrupted", "interrupted_async_cancel", "interrupted_by_cancel_before_a_far_deadline", "routed_as_action_error", "no_goroutine_left", "concurrency_64", "already_expired", "no_goroutine_left_after_terminating_script_under_live_context"}
 	rec.Assume = []string{"time is spent in interpreted code, not in one long built-in call", "hard bound deadline + 10 s; lateness below the bound is reported, not judged"}
 	interp := ecmascript.NewInterpreter()
 	var combos []combo
@@ -291,6 +291,45 @@ func Run(cfg fw.Config, rec *fw.Rec) {
 		if ci%40 == 3 {
 			rec.Sample(c)
 		}
+	}
+	// terminating scripts - every way an execution can end - under a context that stays live:
+	// nothing started for the execution may outlive the call
+	if cfg.Batch == 0 {
+		ending := []struct{ Name, Src string }{
+			{"returns-bindings", `return _.bindings;`},
+			{"returns-nothing", `return;`},
+			{"throws", `throw new Error("x");`},
+			{"returns-number", `return 42;`},
+			{"emits-unserialisable", `_.out({f: function(){}}); return {};`},
+			{"returns-object-with-throwing-getter", `return {get likes() { throw "broken"; }};`},
+			{"returns-object-with-working-getter", `return {get likes() { return "tacos"; }};`},
+			{"returns-cyclic-object", `var o = {}; o.self = o; return o;`},
+			{"syntax-error-at-run-time", `return eval("{{{");`},
+			{"emits-then-returns-array", `_.out({a: 1}); return [1];`},
+		}
+		live, liveCancel := context.WithTimeout(context.Background(), time.Hour)
+		for _, e := range ending {
+			base, _ := ecmaGoroutines()
+			for k := 0; k < 10; k++ {
+				interp.Exec(live, match.Bindings{"n": 1.0}, nil, e.Src, nil)
+				rec.Eval(1)
+			}
+			deadline := time.Now().Add(5 * time.Second)
+			for {
+				n, example := ecmaGoroutines()
+				if n <= base {
+					rec.Bucket("no_goroutine_left_after_terminating_script_under_live_context")
+					break
+				}
+				if time.Now().After(deadline) {
+					rec.Violation("C11:goroutine-leak:"+e.Name, fmt.Sprintf("%d goroutine(s) with an interpreter frame outlive executions of a script that %s, while the caller's context is still live:\n%s", n-base, e.Name, fw.TrimStack(example)), e.Name)
+					break
+				}
+				time.Sleep(5 * time.Millisecond)
+			}
+			rec.Nontrivial("ending:" + e.Name)
+		}
+		liveCancel()
 	}
 	// terminating scripts under an already expired context: either outcome is acceptable
 	for i := 0; i < 50; i++ {
